@@ -569,6 +569,24 @@ def handleClient : List String → String
         | some why => "rejected " ++ why
         | none => "ok"
     | _, _, _ => "bad-op"
+  | "tracem" :: q :: taken :: evs =>
+    -- as `trace`, and the client's counters as functions of the accepted run (C19: forwarded = complete transmissions,
+    -- acknowledged = confirmations)
+    match natList q, natList taken, evs.mapM parseObs with
+    | some q, some taken, some obs =>
+      match Client.checkTrace taken (obs.filterMap obsEv) with
+      | some why => "violates " ++ why
+      | none =>
+        match Client.monitor q taken obs with
+        | some why => "rejected " ++ why
+        | none =>
+          match Client.elaborate q obs with
+          | .ok acts =>
+            match Client.run (Client.init q) acts with
+            | some s => s!"ok fw={Client.forwardedN s.hist} ack={Client.acknowledgedN s.hist}"
+            | none => "rejected internal"
+          | .error e => "rejected " ++ e
+    | _, _, _ => "bad-op"
   | "script" :: _ => "any"
   | _ => "bad-op"
 
